@@ -119,7 +119,7 @@ def cap_pool(r):
 
 def caps(ctx):
     ctx.correspondence("cap-identity-vs-model")
-    n = ctx.n(3, 24)
+    n = ctx.n(2, 24)
     preamble, terms, info = [], [], []
     for rnd in range(n):
         r = ctx.rng("caps", rnd)
@@ -211,7 +211,7 @@ def nodes(ctx):
     from allmydata.nodemaker import NodeMaker
     ctx.correspondence("node-identity-vs-model")
     nm = NodeMaker(None, None, None, None, None, {"k": 3, "n": 10}, None, None)
-    n = ctx.n(3, 20)
+    n = ctx.n(2, 20)
     preamble, terms, info = [], [], []
     seen_classes = set()
     for rnd in range(n):
@@ -264,7 +264,7 @@ def hash_histories(ctx):
     ctx.correspondence("hash-after-edit-vs-model")
     nm = NodeMaker(None, None, None, None, None, {"k": 3, "n": 10}, None, None)
     preamble, terms, info = [], [], []
-    n = ctx.n(36, 360)
+    n = ctx.n(27, 360)
     for i in range(n):
         r = ctx.rng("hist", i)
         kind = U.FILE_KINDS[i % 9]
